@@ -24,19 +24,19 @@ def isolated_blocked_consumer(kind, how):
     from pathlib import Path
     with tempfile.NamedTemporaryFile('w', suffix='.json', delete=False) as f:
         json.dump({'case': {'scenario': 'blocked-consumer', 'kind': kind, 'how': how}}, f)
+    from common import run_isolated
     try:
-        p = subprocess.run([sys.executable, str(Path(__file__).resolve().parent / 'check.py'), 'C06', '--replay', f.name],
-                           capture_output=True, text=True, timeout=120, start_new_session=True)
-    except subprocess.TimeoutExpired:
-        return ('hang', None)
+        rc, out, err, timed_out = run_isolated([sys.executable, str(Path(__file__).resolve().parent / 'check.py'), 'C06', '--replay', f.name], 120)
     finally:
         os.unlink(f.name)
-    m = re.search(r'consumer still blocked=(True|False), values (\[[^\]]*\])', p.stdout)
+    m = re.search(r'consumer still blocked=(True|False), values (\[[^\]]*\])', out)
     if m:
         return (m.group(1) == 'True', json.loads(m.group(2)))
-    if p.returncode < 0:
-        return ('signal', p.returncode)
-    return ('error', (p.stdout + p.stderr)[-300:])
+    if timed_out:
+        return ('hang', None)
+    if rc < 0:
+        return ('signal', rc)
+    return ('error', (out + err)[-300:])
 
 
 def blocked_consumer(sess, kind, how):
